@@ -533,6 +533,7 @@ where
                         // is durable — durable_index may exceed max_index after truncation,
                         // which would cause flush() to short-circuit before the replace lands.
                         self.remove_range(diverge_index..=u64::MAX);
+                        self.next_id.store(diverge_index, Ordering::Release);
                         self.insert_to_memory(tail);
                         let (done_tx, done_rx) = oneshot::channel();
                         self.command_sender
